@@ -1176,6 +1176,9 @@ func (app *App) disableSemiSyncOnSlaves(becomeInactive, becomeDataLag []string) 
 }
 
 func (app *App) enableSemiSyncOnSlave(host string, slaveState, masterState *nodestate.NodeState) error {
+	if slaveState == nil || slaveState.SlaveState == nil || masterState == nil || masterState.MasterState == nil {
+		return fmt.Errorf("state of %s or of its master is incomplete", host)
+	}
 	node := app.cluster.Get(host)
 	err := node.SemiSyncSetSlave()
 	if err != nil {
